@@ -79,6 +79,15 @@ Print Assumptions swap_exchanges.
 Example swap_nonvacuous : v_swap ex_a (VSeq KArray nil) = Some (VSeq KArray nil, ex_a).
 Proof. exact HashProofs.ex_swap_nonvacuous. Qed.
 
+(* the byte-wise loop of memswap (src/Assign.c) exchanges two struct images of the same size *)
+Theorem memswap_exchanges_bytes : forall a b : list N,
+  length a = length b -> memswap a b (length a) = (b, a).
+Proof. exact HashProofs.memswap_exchanges. Qed.
+Print Assumptions memswap_exchanges_bytes.
+
+Example memswap_nonvacuous : memswap (1 :: 2 :: 3 :: nil)%N (7 :: 8 :: 9 :: nil)%N 3 = ((7 :: 8 :: 9 :: nil)%N, (1 :: 2 :: 3 :: nil)%N).
+Proof. exact (eq_refl _). Qed.
+
 (* Table equality and hash do not depend on the order of the bindings (= the slot order) *)
 Theorem table_eq_independent_of_slot_order : forall (k k' : mkind) (mp mp' : list (value * value)),
   v_wf (VMap KTable mp) = true -> Permutation.Permutation mp mp' ->
@@ -149,8 +158,10 @@ Proof. exact HashProofs.table_walk_refuted. Qed.
 Print Assumptions table_walk_refuted.
 
 (* the code shapes the model encodes are still the ones in the source (tools/genx_hash.py): loop,
-   tail switch and finish of hash_data; Int_Hash; Float_Cmp; the five XOR folds *)
+   tail switch and finish of hash_data; Int_Hash; Float_Cmp; the five XOR folds; memswap and swap;
+   copy = alloc + assign *)
 Theorem source_shapes_as_modelled :
-  hash_data_shape_ok && int_hash_shape_ok && float_cmp_shape_ok && xor_fold_shape_ok = true.
+  hash_data_shape_ok && int_hash_shape_ok && float_cmp_shape_ok && xor_fold_shape_ok
+  && memswap_shape_ok && copy_shape_ok = true.
 Proof. exact (eq_refl true). Qed.
 Print Assumptions source_shapes_as_modelled.
